@@ -3,6 +3,8 @@
 (* implementation by `c18 random` / `c18 points` must show the figures the  *)
 (* reference decomposition of Drawdown defines for the curve fed so far.    *)
 (*   {"a":"Reset", ...}                       a fresh generator              *)
+(*   {"a":"Read", ..., "post":p}              generate() on the LIVE         *)
+(*        DrawdownGenerator: post.cur is what the read returned             *)
 (*   {"a":"AddPoint","t":..,"v":..,"post":p}  one point and the projected    *)
 (*        figures after it, in integers: depth in 1e-6 units (rounded),     *)
 (*        model time = ms / 1000, mean duration in ms                       *)
@@ -15,7 +17,7 @@ EXTENDS Drawdown, Json, IOUtils, TLC
 Rec == ndJsonDeserialize(IOEnv.TRACE)
 
 VARIABLES l, bad
-tvars == <<curve, gen, emitted, last, l, bad>>
+tvars == <<curve, gen, emitted, seen, last, l, bad>>
 
 \* |ppm - r * 1e6| <= 1   (the log is rounded to 1e-6; r < 1 so r[1] * 1e6 stays below 2^31)
 Approx(r, ppm) == AbsI(ppm * r[2] - r[1] * 1000000) <= r[2]
@@ -43,10 +45,13 @@ Conf(c, p) ==
   /\ MaxOk(ReportedFin(c), p.fin_max)
   /\ MeanOk(ReportedFin(c), p.fin_mean, FALSE)
 
+\* after a read the emitted field is not observed again
+Conf2(c, p) == Conf(c, [p EXCEPT !.emitted.obs = FALSE])
+
 TInit == /\ Init /\ l = 1 /\ bad = <<>>
 
 TReset == /\ Rec[l].a = "Reset"
-          /\ curve' = <<>> /\ gen' = Gen0 /\ emitted' = <<>>
+          /\ curve' = <<>> /\ gen' = Gen0 /\ emitted' = <<>> /\ seen' = NoDD
           /\ last' = [a |-> "Reset", t |-> 0, v |-> 0]
           /\ UNCHANGED bad
 
@@ -54,9 +59,15 @@ TStep == /\ Rec[l].a = "AddPoint"
          /\ AddPoint(Rec[l].t, Rec[l].v)                     \* the spec's own action
          /\ bad' = IF Conf(curve', Rec[l].post) THEN bad ELSE Append(bad, l)
 
+\* a READ of the current drawdown on the live generator: the logged value is Current(curve) and
+\* (ReadingIsPure) the line changes nothing - every later line is judged against the same curve
+TRead == /\ Rec[l].a = "Read"
+         /\ ReadCurrent                                      \* the spec's own action
+         /\ bad' = IF DDOk(Current(curve), Rec[l].post.cur) /\ Conf2(curve, Rec[l].post) THEN bad ELSE Append(bad, l)
+
 TNext == /\ l <= Len(Rec)
          /\ l' = l + 1
-         /\ (TReset \/ TStep)
+         /\ (TReset \/ TStep \/ TRead)
 
 TSpec == TInit /\ [][TNext]_tvars
 
